@@ -22,11 +22,13 @@ def cases(tier, seed):
         rng = gen.rng_for(seed, "C02", i)
         kind = str(rng.choice(["halfspace", "ball", "annulus", "band", "corner", "hyperplane", "stripes"], p=[0.15, 0.15, 0.15, 0.15, 0.1, 0.1, 0.2]))
         start = str(rng.choice(["feasible", "infeasible", "snap"], p=[0.75, 0.15, 0.10]))
-        geom = str(rng.choice(["lin", "tight", "log", "mixedlog", "unb", "offcentre", "logedge"], p=[0.2, 0.15, 0.2, 0.15, 0.1, 0.1, 0.1]))
+        geom = str(rng.choice(["lin", "tight", "log", "mixedlog", "unb", "offcentre", "logedge", "offset"], p=[0.2, 0.1, 0.2, 0.1, 0.1, 0.1, 0.1, 0.1]))
         x0mode = str(rng.choice(["in", "centre"], p=[0.8, 0.2]))
         if start == "snap":
             kind = "hyperplane"
             x0mode = "in"
+            if rng.random() < 0.5:
+                geom = "offset"  # snapping moves x0 by far less than 1e-5 * |x0| here
         if kind == "hyperplane" and start == "feasible":
             x0mode = "centre"
             geom = str(rng.choice(["lin", "unb"]))  # centre of a linear box is exactly on the mesh
